@@ -180,46 +180,51 @@ func (g *Gen) litIn(base string) (string, *big.Int) {
 	return v.String(), v
 }
 
-// flagExpr draws a precedence-free expression evaluable inside base.
+// flagExpr draws an expression evaluable inside base whose value is the same under the
+// repository's reading (right-associative, no precedence) and upstream's (C precedence).
 func (g *Gen) flagExpr(depth int, base string, env map[string]*big.Int, names []string) *Expr {
 	bits, uns := IntBits(base)
-	for try := 0; try < 50; try++ {
+	for try := 0; try < 80; try++ {
 		e := g.rawExpr(depth, bits, names)
-		if !PrecedenceFree(e) {
+		v1, ok1 := EvalExpr(e, env, bits, uns)
+		if !ok1 {
 			continue
 		}
-		if _, ok := EvalExpr(e, env, bits, uns); ok {
+		v2, ok2 := EvalCPrecedence(e, env, bits, uns)
+		if ok2 && v1.Cmp(v2) == 0 {
 			return e
 		}
 	}
 	return &Expr{Lit: "1"}
 }
 
+// rawExpr draws a tree in the shape the repository's parser builds (left operands are
+// atoms or parenthesised), so that its printed form parses back to the same tree.
 func (g *Gen) rawExpr(depth, bits int, names []string) *Expr {
-	if depth == 0 || g.R.Intn(3) == 0 {
+	atom := func() *Expr {
 		if len(names) > 0 && g.R.Intn(3) == 0 {
 			return &Expr{Ident: g.pick(names)}
 		}
 		v := g.R.Intn(bits)
-		if g.R.Intn(2) == 0 {
+		switch g.R.Intn(3) {
+		case 0:
 			return &Expr{Lit: fmt.Sprint(v)}
+		case 1:
+			return &Expr{Lit: fmt.Sprintf("0x%x", 1<<uint(v%16))}
 		}
-		return &Expr{Lit: fmt.Sprintf("0x%x", 1<<uint(v%16))}
+		return &Expr{Lit: fmt.Sprint(g.R.Intn(200))}
 	}
-	op := g.pick([]string{"|", "&", "<<", ">>", "|", "<<"})
-	mk := func() *Expr {
-		x := g.rawExpr(depth-1, bits, names)
-		if x.Op != "" && x.Op != "()" {
-			return &Expr{Op: "()", L: x}
-		}
-		return x
+	if depth <= 0 || g.R.Intn(4) == 0 {
+		return atom()
 	}
-	if (op == "|" || op == "&") && g.R.Intn(3) == 0 {
-		// associative chain a | b | c (right-nested, as the parser builds it)
-		return &Expr{Op: op, L: mk(), R: &Expr{Op: op, L: mk(), R: mk()}}
+	left := atom()
+	if g.R.Intn(3) == 0 {
+		left = &Expr{Op: "()", L: g.rawExpr(depth-1, bits, names)}
 	}
-	e := &Expr{Op: op, L: mk(), R: mk()}
-	if g.R.Intn(4) == 0 {
+	op := g.pick([]string{"|", "&", "<<", ">>", "|", "&", "<<"})
+	right := g.rawExpr(depth-1, bits, names)
+	e := &Expr{Op: op, L: left, R: right}
+	if g.R.Intn(5) == 0 {
 		return &Expr{Op: "()", L: e}
 	}
 	return e
@@ -451,4 +456,38 @@ func Features(s *Schema) map[string]bool {
 		}
 	}
 	return f
+}
+
+// FlagsEnum draws a [flags] enum over base whose members are precedence-independent
+// expression trees up to the given depth with pairwise distinct values.
+func (g *Gen) FlagsEnum(name, base string, depth, maxOpts int) *Def {
+	d := &Def{Kind: "enum", Name: name, Flags: true, Base: base}
+	bits, uns := IntBits(base)
+	seen := map[string]bool{}
+	env := map[string]*big.Int{}
+	var names []string
+	n := 2 + g.R.Intn(maxOpts-1)
+	for i := 0; i < n; i++ {
+		o := Option{Name: fmt.Sprintf("Opt%c", 'A'+i)}
+		var v *big.Int
+		for try := 0; try < 40; try++ {
+			o.Expr = g.flagExpr(1+g.R.Intn(depth), base, env, names)
+			v, _ = EvalExpr(o.Expr, env, bits, uns)
+			if v != nil && !seen[v.String()] {
+				break
+			}
+			v = nil
+		}
+		if v == nil {
+			continue
+		}
+		seen[v.String()] = true
+		env[o.Name] = v
+		names = append(names, o.Name)
+		d.Options = append(d.Options, o)
+	}
+	if len(d.Options) == 0 {
+		d.Options = []Option{{Name: "OptA", Expr: &Expr{Lit: "1"}}}
+	}
+	return d
 }
